@@ -67,6 +67,20 @@ def handle (inp out : Sexp) : CaseResult :=
       tags := "quote" :: strTags s, detail := s!"model={mOut} impl={out}" }
   | .list [.atom "pos", .atom pn, .str s] => posCase "top" pn s out
   | .list [.atom "placed", .atom pl, .atom pn, .str s] => posCase pl pn s out
+  | .list [.atom "tmpl", .atom name, .str pre, .str post, .str s] =>
+    -- template taken from the implementation's output for a sentinel string
+    let t : Template := { pre := pre.toList, post := post.toList }
+    let text := t.print s.toList
+    let back := t.read text
+    let mOut : Sexp := .list [.atom "printed", .str (String.ofList text),
+      match back with
+      | some b => .list [.atom "reparsed", .str (String.ofList b)]
+      | none => .list [.atom "err"]]
+    let specOk := match out with
+      | .list [.atom "printed", _, .list [.atom "reparsed", .str b]] => b == s
+      | _ => false
+    { agree := mOut == out, specOk := specOk, nontrivial := special s,
+      tags := s!"tmpl-{name}" :: strTags s, detail := s!"model={mOut} impl={out}" }
   | _ => .bad s!"undecodable input {inp}"
 
 end QV.C07
